@@ -185,5 +185,8 @@ func (e AggregationBase2ExponentialHistogram) err() error {
 	if e.MaxSize <= 0 {
 		return fmt.Errorf("%w: max size %d is less than or equal to zero", errExpoHist, e.MaxSize)
 	}
+	if e.MaxScale < expoMinScale {
+		return fmt.Errorf("%w: max scale %d is less than minimum scale %d", errExpoHist, e.MaxScale, expoMinScale)
+	}
 	return nil
 }
